@@ -6,8 +6,24 @@ from .c08_plan import PROFILE, plans, ASSUME, enum_plans
 def run(tier, seed):
     mc, sim = plans(tier)
     ck = nc.run_property("C08", tier, seed, "Inv08", PROFILE, mc, sim, 1500 if tier == "thorough" else 240, ASSUME, enum_plan=enum_plans(tier))
+    from . import c08_sweep
+    n = c08_sweep.run_sweep(ck, tier, seed)
+    ck.cov["evaluations"] = ck.cov.get("evaluations", 0) + n
     return ck.finish()
 
 
 def replay(path, seed):
+    import json
+    body = json.load(open(path))
+    if "sweep" in (body.get("replay") or {}):
+        from ..common import Check
+        from . import c08_sweep
+        ck = Check("C08", "quick", seed, "model_checking", evidence=False)
+        c08_sweep.run_sweep(ck, "quick", body.get("seed", seed))
+        hit = [v for v in ck.violations if v["sig"] == body["sig"]] + ([1] if body["sig"] in ck.known else [])
+        print("sweep re-run: %d violations with this signature" % len(hit))
+        if hit:
+            print("VIOLATION property=C08 replay=%s" % path)
+            return 1
+        return 0
     return nc.replay_file("C08", path)
